@@ -15,6 +15,9 @@ func debugTokens(c *api.Context, id b6.Identifiable) (b6.Collection[int, string]
 	if f := api.Resolve(id, c.World); f != nil {
 		return b6.ArrayValuesCollection[string](ingest.TokensForFeature(f)).Collection(), nil
 	}
+	if err := requireIdentifiable("debug-tokens", id); err != nil {
+		return b6.Collection[int, string]{}, err
+	}
 	return b6.Collection[int, string]{}, fmt.Errorf("No feature with id %s", id.FeatureID())
 }
 
